@@ -179,6 +179,15 @@ fn gu(v: &Value, k: &str) -> u64 {
 fn gb(v: &Value, k: &str) -> bool {
     v.get(k).and_then(|x| x.as_bool()).unwrap_or(false)
 }
+/// integer field given either as a number or as big-endian bytes (values >= 2^31)
+pub fn wide(v: &Value, k: &str) -> u64 {
+    match v.get(k) {
+        Some(Value::Array(a)) => a.iter().fold(0u64, |acc, b| (acc << 8) | b.as_u64().unwrap_or(0)),
+        Some(x) => x.as_u64().unwrap_or(0),
+        None => 0,
+    }
+}
+
 pub fn bytes_of(v: &Value) -> Vec<u8> {
     v.as_array()
         .map(|a| a.iter().map(|x| x.as_u64().unwrap_or(0) as u8).collect())
@@ -328,8 +337,11 @@ pub enum BuildStyle {
 pub fn build_muxer(cfg: &Cfg, sink: SharedSink, style: BuildStyle) -> Result<Muxer<SharedSink>, MuxerError> {
     let j = &cfg.json;
     let mut b = MuxerBuilder::new(sink);
-    let (w, h) = (gu(j, "w") as u32, gu(j, "h") as u32);
-    let fps = j.get("fps").and_then(|x| x.as_f64()).unwrap_or(30.0);
+    let (w, h) = (wide(j, "w") as u32, wide(j, "h") as u32);
+    let fps = match j.get("fps_bits") {
+        Some(b) => f64::from_bits(bytes_of(b).iter().fold(0u64, |acc, x| (acc << 8) | *x as u64)),
+        None => j.get("fps").and_then(|x| x.as_f64()).unwrap_or(30.0),
+    };
     if !gb(j, "novideo") {
         b = match style {
             BuildStyle::Plain => b.video(cfg.vcodec(), w, h, fps),
@@ -337,7 +349,7 @@ pub fn build_muxer(cfg: &Cfg, sink: SharedSink, style: BuildStyle) -> Result<Mux
         };
     }
     let ac = cfg.acodec();
-    let (rate, ch) = (gu(j, "rate") as u32, gu(j, "ch") as u16);
+    let (rate, ch) = (wide(j, "rate") as u32, wide(j, "ch") as u16);
     if ac != AudioCodec::None {
         b = match style {
             BuildStyle::Plain => b.audio(ac, rate, ch),
@@ -499,12 +511,12 @@ pub fn run_instance(id: u64, cfg: &Cfg, calls: &[Value], opts: &RunOpts) -> RunR
                     catch(|| m.write_audio(pts, &data))
                 }
                 "ev" => {
-                    let ms = gu(c, "ms") as u32;
+                    let ms = wide(c, "ms") as u32;
                     let m = mux.as_mut().unwrap();
                     catch(|| m.encode_video(&data, ms))
                 }
                 "ea" => {
-                    let n = gu(c, "n") as u32;
+                    let n = wide(c, "n") as u32;
                     let m = mux.as_mut().unwrap();
                     catch(|| m.encode_audio(&data, n))
                 }
@@ -595,15 +607,6 @@ fn vp9_from(v: &Value) -> Vp9Config {
         matrix_coefficients: gu(v, "matrix_coefficients") as u8,
         level: gu(v, "level") as u8,
         full_range_flag: gu(v, "full_range_flag") as u8,
-    }
-}
-
-fn wide(v: &Value, k: &str) -> u64 {
-    // integer field given either as a number or as big-endian bytes (values >= 2^31)
-    match v.get(k) {
-        Some(Value::Array(a)) => a.iter().fold(0u64, |acc, b| (acc << 8) | b.as_u64().unwrap_or(0)),
-        Some(x) => x.as_u64().unwrap_or(0),
-        None => 0,
     }
 }
 
